@@ -21,13 +21,12 @@ TRUSTED = [
     "oracle/common/proto.ml + oracle/strlib/driver.ml (text protocol glue), OCaml 4.13.1",
     "Go harness harness/cmd/gvh-strlib (+ shared hx.RunLuaCase), its embedded Lua driver chunks (pcall, emit, proxies); Python generator/diff in lib/props/C19.py, py",
     "modelled not verified: Go strings.Index (as first occurrence), strings.Repeat / strings.Builder (as concatenation), "
-    "strings.ToUpper/ToLower (UTF-8 decode/encode modelled; unicode.ToUpper/ToLower a parameter, instantiated on ASCII+Latin-1 for the oracle), "
     "sort.Sort (Section variable: calls only Less/Swap with indices in range, terminates; sampled through the proxy access log), "
     "allocation failure for huge string.rep results (cases with 2^16 <= size < 2^63 are not run)",
 ]
 
 THEOREMS_STR = ["C19_sub_spec", "C19_byte_spec", "C19_char_spec", "C19_rep_spec_partial", "C19_rep_spec_refuted", "C19_len_spec",
-                "C19_find_plain_spec_refuted", "C19_upper_lower_bytewise", "C19_upper_spec_refuted"]
+                "C19_find_plain_spec", "C19_reverse_spec", "C19_upper_lower_bytewise", "C19_str_no_panic"]
 
 
 # ----------------------------------------------------------------------------- rendering
@@ -225,18 +224,9 @@ def known_string_finding(fn, args, go, im, s):
     that the input lies in the recorded defect class."""
     if go != im:
         return None
-    if fn == "find":
-        si = norm_start(args[0], args[2] if len(args) > 2 else None)
-        if si is not None and si > 0 and s.startswith("ok:i") and go.startswith("ok:i"):
-            a, b = [int(x[1:], 16) for x in s[3:].split(",")]
-            if go == "ok:i%x,i%x" % (a - si, b - si):
-                return "C19-find-plain-drops-init-offset"
     if fn == "rep":
         if args[1] < 0 and go == "err:range2" and s == "ok:s-":
             return "C19-rep-negative-count-raises"
-    if fn in ("upper", "lower"):
-        if any(c >= 0x80 for c in args[0]):
-            return "C19-upper-lower-utf8-not-bytewise"
     return None
 
 
@@ -616,30 +606,58 @@ def sort_predicates(c, g):
 
 
 def tab_known(c, g, go, im, s):
-    L = tab_len(c, g)
-    if L == MAXINT and c["op"] in ("insert", "remove") and (go == im or (go[0] == "spin" and im[0] == "spin")):
-        return "C19-insert-remove-len-maxint-wraps"
-    return None
+    return None      # no open table finding (insert/remove with #t = maxinteger was repaired in round 2)
+
+
+def parse_tab_case(line):
+    """'T<op> mode=.. len=.. t1=.. [t2=..] [keys=..] [err=n] [cmp=k] -- args' -> case dict"""
+    f = line.split()
+    c = {"op": f[0][1:], "mode": "plain", "len": None, "t1": {}, "t2": None, "args": []}
+
+    def val(a):
+        if a in ("@1", "@2"):
+            return a
+        if a == "n":
+            return None
+        if a in ("b0", "b1"):
+            return a == "b1"
+        if a[0] == "i":
+            return int(a[1:], 16)
+        return bytes.fromhex(a[1:]) if a != "s-" else b""
+
+    def cont(sv):
+        d = {}
+        if sv not in ("-", ""):
+            for kv in sv.split(";"):
+                k, _, v = kv.partition("=")
+                d[val(k)] = val(v)
+        return d
+    i = 1
+    while i < len(f) and f[i] != "--":
+        k, _, v = f[i].partition("=")
+        if k == "mode":
+            c["mode"] = v
+        elif k == "len":
+            c["len"] = None if v == "-" else val(v)
+        elif k in ("t1", "t2"):
+            c[k] = cont(v)
+        elif k == "err":
+            c["err"] = int(v)
+        elif k == "cmp":
+            c["cmp"] = v
+        i += 1
+    c["args"] = [val(a) for a in f[i + 1:]]
+    return c
 
 
 def check_tables(ck, gvh, oracle, tier, corpus, tag="t"):
-    cases = gen_table_cases(tier, ck.rng, ck)
-    sorts = gen_sort_cases(tier, ck.rng)
+    ccases = [parse_tab_case(l) for l in corpus]
+    cases = [c for c in ccases if c["op"] != "sort"] + gen_table_cases(tier, ck.rng, ck)
+    sorts = [c for c in ccases if c["op"] == "sort"] + gen_sort_cases(tier, ck.rng)
     allc = cases + sorts
     lines = [tab_go_line("%s%d" % (tag, i), c) for i, c in enumerate(allc)]
     ck.log("table cases: %d (+ %d sort)" % (len(cases), len(sorts)))
-    # calls the model predicts never to terminate (2-argument insert when #t = maxinteger) run under a CPU limit, one per runtime
-    def spins(c):
-        return c["op"] == "insert" and len(c["args"]) == 2 and c["mode"] == "proxy" and c.get("len") == MAXINT and not c.get("err")
-    normal = [l for l, c in zip(lines, allc) if not spins(c)]
-    limited = [l for l, c in zip(lines, allc) if spins(c)]
-    go = run_go(gvh, normal, batch=500)
-    if limited:
-        rc, out, _ = vlib.run_lines(gvh, ["1", "cpu=300000"], limited, timeout=600)
-        for l in out:
-            cid, _, ev = l.partition(" ")
-            go[cid] = ev
-        ck.count("tab:insert:run-under-cpu-limit", len(limited))
+    go = run_go(gvh, lines, batch=500)
     parsed = {}
     for i, c in enumerate(allc):
         cid = "%s%d" % (tag, i)
@@ -944,43 +962,7 @@ def replay(path, seed):
         print("impl canonical:", go_result(go.get("r", "")))
         print("model:", mod.get("r"))
         return 0
-    # table case: rebuild the case dict from the line
-    f = r["case"].split()
-    c = {"op": f[0][1:], "mode": "plain", "len": None, "t1": {}, "t2": None, "args": []}
-
-    def val(a):
-        if a in ("@1", "@2"):
-            return a
-        if a == "n":
-            return None
-        if a in ("b0", "b1"):
-            return a == "b1"
-        if a[0] == "i":
-            return int(a[1:], 16)
-        return bytes.fromhex(a[1:]) if a != "s-" else b""
-
-    def cont(sv):
-        d = {}
-        if sv not in ("-", ""):
-            for kv in sv.split(";"):
-                k, _, v = kv.partition("=")
-                d[val(k)] = val(v)
-        return d
-    i = 1
-    while i < len(f) and f[i] != "--":
-        k, _, v = f[i].partition("=")
-        if k == "mode":
-            c["mode"] = v
-        elif k == "len":
-            c["len"] = None if v == "-" else val(v)
-        elif k in ("t1", "t2"):
-            c[k] = cont(v)
-        elif k == "err":
-            c["err"] = int(v)
-        elif k == "cmp":
-            c["cmp"] = v
-        i += 1
-    c["args"] = [val(a) for a in f[i + 1:]]
+    c = parse_tab_case(r["case"])
     g = parse_tab_go(go.get("r", ""))
     if c["op"] == "sort":
         print("sort predicates:", sort_predicates(c, g))
